@@ -89,6 +89,23 @@ def run_multi(case):
     extra = {}
     for j, name in enumerate(("b.sql", "c.sql")[: 1 + case["idx"] % 2]):
         extra[name] = cliscen.gen(case["idx"] * 7 + j + 1)["sql"] if base["config"]["core"].get("templater") == "jinja" else cliscen.gen(case["idx"] * 7 + j + 1)["sql"].replace("{{", "(").replace("}}", ")").replace("{%", "").replace("%}", "")
+    if case["idx"] % 2 == 0:
+        # directed layout: the alphabetically first file has only a *suppressed* parse error,
+        # later files parse cleanly and carry fixable violations
+        from vfw.gen.corpus import rng as _rng
+
+        r = _rng("c22-multi", case["idx"])
+        mode = r.choice(["noqa", "ignore", "warnings"])
+        core = {"dialect": "ansi", "rules": r.choice(["LT01,CP01", "LT01,CP01,LT12", "core"]), "templater": "raw"}
+        first = "select a from t where;" + (" -- noqa: PRS" if mode == "noqa" else "") + "\n"
+        if mode == "ignore":
+            core["ignore"] = "parsing"
+        if mode == "warnings":
+            core["warnings"] = "PRS"
+        base = {"sql": r.choice(["SELECT a,b from t;\n", "select  a from t;\n", "select a from t;\n"]), "config": {"core": core}, "nested": None, "subdir": "", "tags": ["fixable"], "inline": False}
+        extra = {"a_first.sql": first}
+        if r.random() < 0.5:
+            extra["z_last.sql"] = r.choice(["select a from t where; -- noqa: PRS\n", "SELECT c,d from u;\n"])
     base["extra_files"] = extra
     pj = cliscen.Project(base)
     fails = []
